@@ -533,6 +533,9 @@ func (w *World) runScan(rec *OpRec) {
 func (w *World) runTask(t int) {
 	for i := range w.Recs[t] {
 		simrt.Yield("task:op")
+		if w.Env.frozen.Load() {
+			return // teardown: the freed tasks run in parallel, nothing is judged any more
+		}
 		w.runOp(w.Recs[t][i])
 	}
 	w.tasksDone.Add(1)
